@@ -73,6 +73,7 @@ type PackOpts struct {
 	AudioOnly       bool
 	BigSamples      bool
 	EmsgOnly        bool // with Foreign off: emsg boxes may still precede a moof
+	LargeMdat       bool // some fragments write their mdat with the 64-bit size form (MdatBox.LargeSize)
 	HugeDurs        bool // a few sample durations around 2^31 / 2^32-1 (legal; sums inside one trun pass 2^32)
 	MixIntervalFull bool // single samples (AddFullSample) may follow sample intervals in one fragment
 	SplitTruns      bool // single-track fragments may carry their samples in two trun boxes (legal; built with CreateTrun/AddChild)
@@ -284,6 +285,9 @@ func Package(r *sim.Run, o PackOpts) (*Production, error) {
 				frag, _ = mp4.CreateFragment(seq, uint32(ti+1))
 			}
 			seq++
+			if o.LargeMdat && t.Chance(60) {
+				frag.Mdat.LargeSize = true // the media data box is written with the 64-bit size form
+			}
 			mode := "full"
 			modes := []string{"full"}
 			if !o.NoMeta {
